@@ -384,7 +384,8 @@ class GraphGen:
 
     def retain(self):
         # a retained prefix must be closed: no value stack cell whose slot may later be redirected
-        if self.nval or self.nreg or self.nframe:
+        # (register and frame cells are immutable, so they may be retained)
+        if self.nval:
             return
         self.toks.append("ret")
         for s in self.slots:
@@ -579,13 +580,15 @@ def gen_expr(r, depth):
         return "((:a = %s, :b = %s).%s)" % (e(), e(), r.choice("abc"))
     if x < 0.68:
         return "(%s ?> %s |> %s)" % (e(), e(), e())
+    if x < 0.74:
+        return "({ %s } %s %s)" % (gen_expr(r, depth - 1), r.choice(["<~", "<~", "<~", "~"]), e())
     if x < 0.8:
-        return "({ %s } ~ %s)" % (gen_expr(r, depth - 1), e())
+        return "({ (%s, { ($, %s) } <~ %s, %s) } <~ %s)" % (e(), e(), e(), e(), e())
     if x < 0.86:
         return "((%s) <~ %d)" % (", ".join(e() for _ in range(r.randrange(2, 4))), r.randrange(0, 3))
     if x < 0.92:
         return "(%s = %s)" % (e(), e())
-    return "({ $.n < %d ?> ^~ :n = $.n + 1 :acc = ($.acc, $.n) } ~ :n = 0 :acc = %s)" % (r.randrange(1, 5), e())
+    return "({ $.n < %d ?> ^~ :n = $.n + 1 :acc = ($.acc, $.n) } <~ :n = 0 :acc = %s)" % (r.randrange(1, 5), e())
 
 
 FIXED_PROGRAMS = [
@@ -597,15 +600,18 @@ FIXED_PROGRAMS = [
     ":value = 50\n60\n70\n\n(\n    $ <~ 1,\n    $ <~ :value\n) = (\n    60\n    50\n)",
     "\"abc\" <> \"def\"",
     "(:nested = (:still = (:value = 5,),),) <~ :nested.still.value",
-    "{ { { $ + 1 } ~ $ * 2 } ~ $ + 3 } ~ 4",
-    "{ $.n < 12 ?> ^~ :n = $.n + 1 :l = ($.l, $.n) } ~ :n = 0 :l = ()",
+    "{ { { $ + 1 } <~ $ * 2 } <~ $ + 3 } <~ 4",
+    "{ $.n < 12 ?> ^~ :n = $.n + 1 :l = ($.l, $.n) } <~ :n = 0 :l = ()",
+    "{ ($ + 1, { ($ * 2, { ($, \"ab\" <> \"cd\", :k = $) } <~ $ + 7) } <~ $ + 3, $) } <~ 4",
+    "{ (:a = $, :b = { (:c = $, :d = ($, $)) } <~ ($, 1)).b.d } <~ (1, 2, 3)",
+    "{ $ + 1 } ~ 5\n\n$ ~~",
 ]
 
 
 def gen_programs(tier, seed):
     r = vplib.rng_for(seed, "C19/programs")
     out = list(FIXED_PROGRAMS)
-    n = 1500 if tier == "thorough" else 300
+    n = 1500 if tier == "thorough" else 200
     for _ in range(n):
         out.append(gen_expr(r, r.choice([2, 3, 3, 4])))
     k = 40 if tier == "thorough" else 12
